@@ -120,7 +120,7 @@ theorem leafKey_mem : ∀ (rest : List String) (p : String) (v : Val), LeafPath 
 def ShapeOK (k0 : String) (rest : List String) (c : Ctx) : Prop :=
   UniqueKeys c.data ∧ UniqueKeys c.vers ∧
   match get? c.data k0 with
-  | none => ver c.vers (keyOf k0 rest) = 0
+  | none => ver c.vers (keyOf (esc k0) rest) = 0
   | some v => LeafPath v rest
 
 /-- SHAPE-STABLE REPUBLICATION at the path `k0 :: rest` (decidable): a publication that contains the
@@ -130,7 +130,7 @@ def StablePub (k0 : String) (rest : List String) (pub : Dict) : Prop :=
   UniqueKeys pub ∧
   match get? pub k0 with
   | some v => LeafPath v rest
-  | none => keyOf k0 rest ∉ leafKeysKv none pub
+  | none => keyOf (esc k0) rest ∉ leafKeysKv none pub
 
 /-! the hypotheses are decidable -/
 instance (α : Type) (d : List (String × α)) : Decidable (UniqueKeys d) := by unfold UniqueKeys; exact inferInstance
@@ -178,7 +178,7 @@ theorem ShapeOK.leaf {k0 : String} {rest : List String} {c : Ctx} (h : ShapeOK k
 
 /-- ... and a positive version means the leaf is there -/
 theorem ShapeOK.present {k0 : String} {rest : List String} {c : Ctx} (h : ShapeOK k0 rest c)
-    (hv : 0 < ver c.vers (keyOf k0 rest)) : ∃ x, getPath c.data k0 rest = some x := by
+    (hv : 0 < ver c.vers (keyOf (esc k0) rest)) : ∃ x, getPath c.data k0 rest = some x := by
   rw [getPath_of_get?]
   cases hg : get? c.data k0 with
   | none =>
@@ -196,17 +196,17 @@ theorem ShapeOK.present {k0 : String} {rest : List String} {c : Ctx} (h : ShapeO
 theorem merge_at_path (k0 : String) (rest : List String) (hk : k0 ≠ "__task_execution") (l r : Ctx)
     (hl : ShapeOK k0 rest l) (hr : ShapeOK k0 rest r) :
     ShapeOK k0 rest (mergeByVersion l r) ∧
-    ver (mergeByVersion l r).vers (keyOf k0 rest) = max (ver l.vers (keyOf k0 rest)) (ver r.vers (keyOf k0 rest)) ∧
+    ver (mergeByVersion l r).vers (keyOf (esc k0) rest) = max (ver l.vers (keyOf (esc k0) rest)) (ver r.vers (keyOf (esc k0) rest)) ∧
     getPath (mergeByVersion l r).data k0 rest =
       match getPath r.data k0 rest with
       | none => getPath l.data k0 rest
       | some y => match getPath l.data k0 rest with
         | none => some y
-        | some x => if ver r.vers (keyOf k0 rest) > ver l.vers (keyOf k0 rest) then some y else some x := by
+        | some x => if ver r.vers (keyOf (esc k0) rest) > ver l.vers (keyOf (esc k0) rest) then some y else some x := by
   obtain ⟨hl1, hl2, hl3⟩ := hl
   obtain ⟨hr1, hr2, hr3⟩ := hr
-  have hver : ver (mergeByVersion l r).vers (keyOf k0 rest) =
-      max (ver l.vers (keyOf k0 rest)) (ver r.vers (keyOf k0 rest)) := by
+  have hver : ver (mergeByVersion l r).vers (keyOf (esc k0) rest) =
+      max (ver l.vers (keyOf (esc k0) rest)) (ver r.vers (keyOf (esc k0) rest)) := by
     unfold mergeByVersion; exact ver_mergeVers _ _ hr2 _
   have hsl : get? (stripInternal l.data) k0 = get? l.data k0 :=
     get?_erase_other _ _ _ (fun e => hk e.symm)
@@ -219,7 +219,7 @@ theorem merge_at_path (k0 : String) (rest : List String) (hk : k0 ≠ "__task_ex
       | none => get? l.data k0
       | some v => match get? l.data k0 with
         | none => some v
-        | some lval => some (mergeVal l.vers r.vers k0 lval v) := by
+        | some lval => some (mergeVal l.vers r.vers (esc k0) lval v) := by
     unfold mergeByVersion
     simp only
     rw [mergeKv_get _ _ _ _ _ hur k0, hsl, hsr, path_none]
@@ -242,7 +242,7 @@ theorem merge_at_path (k0 : String) (rest : List String) (hk : k0 ≠ "__task_ex
       | none => exact hr3
       | some a =>
         simp only [hgl] at hl3
-        exact (mergeVal_leafPath _ _ rest k0 a b hl3 hr3).1
+        exact (mergeVal_leafPath _ _ rest (esc k0) a b hl3 hr3).1
   · simp only [getPath_of_get?, hget]
     cases hgr : get? r.data k0 with
     | none => simp
@@ -254,7 +254,7 @@ theorem merge_at_path (k0 : String) (rest : List String) (hk : k0 ≠ "__task_ex
       | some a =>
         simp only [hgl] at hl3
         obtain ⟨x, hx, _⟩ := LeafPath.get rest a hl3
-        simp only [(mergeVal_leafPath l.vers r.vers rest k0 a b hl3 hr3).2, hx, hy]
+        simp only [(mergeVal_leafPath l.vers r.vers rest (esc k0) a b hl3 hr3).2, hx, hy]
 
 /-- `evaluate_task_outbound_context` at one leaf path, for a shape-stable publication -/
 theorem outbound_at_path (k0 : String) (rest : List String) (c : Ctx) (pub : Dict)
@@ -264,30 +264,30 @@ theorem outbound_at_path (k0 : String) (rest : List String) (c : Ctx) (pub : Dic
       (match get? pub k0 with
        | some _ => getPath pub k0 rest
        | none => getPath c.data k0 rest) ∧
-    (get? pub k0 = none → ver (outbound c pub).vers (keyOf k0 rest) = ver c.vers (keyOf k0 rest)) ∧
-    (get? pub k0 ≠ none → ver c.vers (keyOf k0 rest) < ver (outbound c pub).vers (keyOf k0 rest)) := by
+    (get? pub k0 = none → ver (outbound c pub).vers (keyOf (esc k0) rest) = ver c.vers (keyOf (esc k0) rest)) ∧
+    (get? pub k0 ≠ none → ver c.vers (keyOf (esc k0) rest) < ver (outbound c pub).vers (keyOf (esc k0) rest)) := by
   obtain ⟨hc1, hc2, hc3⟩ := hc
   obtain ⟨hp1, hp2⟩ := hp
   have hget : get? (outbound c pub).data k0 = match get? pub k0 with
       | some v => some v
       | none => get? c.data k0 := by
     unfold outbound; exact get?_update_unique _ _ hp1 k0
-  have hver : ver (outbound c pub).vers (keyOf k0 rest) =
-      ver c.vers (keyOf k0 rest) + (leafKeysKv none pub).count (keyOf k0 rest) := by
+  have hver : ver (outbound c pub).vers (keyOf (esc k0) rest) =
+      ver c.vers (keyOf (esc k0) rest) + (leafKeysKv none pub).count (keyOf (esc k0) rest) := by
     unfold outbound; exact ver_bump _ _ _
-  have hnone : get? pub k0 = none → ver (outbound c pub).vers (keyOf k0 rest) = ver c.vers (keyOf k0 rest) := by
+  have hnone : get? pub k0 = none → ver (outbound c pub).vers (keyOf (esc k0) rest) = ver c.vers (keyOf (esc k0) rest) := by
     intro hg
     simp only [hg] at hp2
     rw [hver, List.count_eq_zero_of_not_mem hp2]; rfl
-  have hsome : get? pub k0 ≠ none → ver c.vers (keyOf k0 rest) < ver (outbound c pub).vers (keyOf k0 rest) := by
+  have hsome : get? pub k0 ≠ none → ver c.vers (keyOf (esc k0) rest) < ver (outbound c pub).vers (keyOf (esc k0) rest) := by
     intro hg
     cases hgp : get? pub k0 with
     | none => exact absurd hgp hg
     | some v =>
       simp only [hgp] at hp2
-      have hm : keyOf k0 rest ∈ leafKeysKv none pub :=
-        leafKeysKv_mem_of_get? none _ pub k0 v hgp (by rw [path_none]; exact leafKey_mem rest k0 v hp2)
-      have : 0 < (leafKeysKv none pub).count (keyOf k0 rest) := List.count_pos_iff.mpr hm
+      have hm : keyOf (esc k0) rest ∈ leafKeysKv none pub :=
+        leafKeysKv_mem_of_get? none _ pub k0 v hgp (by rw [path_none]; exact leafKey_mem rest (esc k0) v hp2)
+      have : 0 < (leafKeysKv none pub).count (keyOf (esc k0) rest) := List.count_pos_iff.mpr hm
       rw [hver]; omega
   refine ⟨⟨?_, ?_, ?_⟩, ?_, hnone, hsome⟩
   · unfold outbound; exact uniqueKeys_update _ _ hc1
@@ -327,8 +327,8 @@ theorem cell_assoc {α : Type} (oa ob oc : Option α) (na nb nc : Nat)
 theorem merge_at_path_cell (k0 : String) (rest : List String) (hk : k0 ≠ "__task_execution") (l r : Ctx)
     (hl : ShapeOK k0 rest l) (hr : ShapeOK k0 rest r) :
     getPath (mergeByVersion l r).data k0 rest =
-      cellVal (getPath l.data k0 rest) (ver l.vers (keyOf k0 rest)) (getPath r.data k0 rest)
-        (ver r.vers (keyOf k0 rest)) := by
+      cellVal (getPath l.data k0 rest) (ver l.vers (keyOf (esc k0) rest)) (getPath r.data k0 rest)
+        (ver r.vers (keyOf (esc k0) rest)) := by
   rw [(merge_at_path k0 rest hk l r hl hr).2.2]
   cases getPath r.data k0 rest <;> cases getPath l.data k0 rest <;> rfl
 
@@ -401,7 +401,7 @@ theorem ver_upstream_ge (k : String) (outs : List Ctx) (hu : ∀ c ∈ outs, Uni
 /-! ### the run -/
 
 theorem ShapeOK.absent {k0 : String} {rest : List String} {c : Ctx} (h : ShapeOK k0 rest c)
-    (hx : getPath c.data k0 rest = none) : ver c.vers (keyOf k0 rest) = 0 := by
+    (hx : getPath c.data k0 rest = none) : ver c.vers (keyOf (esc k0) rest) = 0 := by
   rw [getPath_of_get?] at hx
   cases hg : get? c.data k0 with
   | none => have h3 := h.2.2; simp only [hg] at h3; exact h3
@@ -439,11 +439,11 @@ structure Good (k0 : String) (rest : List String) (rows : List Row) : Prop where
   ancTrans : ∀ (i : Nat) (r : Row), rows[i]? = some r → ∀ q ∈ r.anc, ∀ rq : Row, rows[q]? = some rq → ∀ q' ∈ rq.anc, q' ∈ r.anc
   /-- the version a task sees dominates the outbound version of every causal ancestor -/
   domIn : ∀ (i : Nat) (r : Row), rows[i]? = some r → ∀ q ∈ r.anc, ∀ rq : Row, rows[q]? = some rq →
-    ver rq.out.vers (keyOf k0 rest) ≤ ver r.inb.vers (keyOf k0 rest)
+    ver rq.out.vers (keyOf (esc k0) rest) ≤ ver r.inb.vers (keyOf (esc k0) rest)
   /-- the leaf a task sees was published by a causal ancestor whose outbound version is the version seen -/
   witIn : ∀ (i : Nat) (r : Row), rows[i]? = some r → ∀ x, getPath r.inb.data k0 rest = some x →
     ∃ q ∈ r.anc, ∃ rq : Row, rows[q]? = some rq ∧ getPath rq.task.pub k0 rest = some x ∧
-      ver rq.out.vers (keyOf k0 rest) = ver r.inb.vers (keyOf k0 rest)
+      ver rq.out.vers (keyOf (esc k0) rest) = ver r.inb.vers (keyOf (esc k0) rest)
 
 theorem Good.shapeOut {k0 : String} {rest : List String} {rows : List Row} (g : Good k0 rest rows)
     (i : Nat) (r : Row) (h : rows[i]? = some r) : ShapeOK k0 rest r.out := by
@@ -452,7 +452,7 @@ theorem Good.shapeOut {k0 : String} {rest : List String} {rows : List Row} (g : 
 
 theorem Good.verInOut {k0 : String} {rest : List String} {rows : List Row} (g : Good k0 rest rows)
     (i : Nat) (r : Row) (h : rows[i]? = some r) :
-    ver r.inb.vers (keyOf k0 rest) ≤ ver r.out.vers (keyOf k0 rest) := by
+    ver r.inb.vers (keyOf (esc k0) rest) ≤ ver r.out.vers (keyOf (esc k0) rest) := by
   rw [g.outOfIn i r h]
   obtain ⟨_, _, h1, h2⟩ := outbound_at_path k0 rest _ _ (g.stable i r h) (g.shapeIn i r h)
   cases hg : get? r.task.pub k0 with
@@ -489,7 +489,7 @@ theorem good_step (k0 : String) (rest : List String) (hk : k0 ≠ "__task_execut
     rw [hni]
     exact upstream_ind (ShapeOK k0 rest) (shapeOK_empty k0 rest)
       (fun l r hl hr => (merge_at_path k0 rest hk l r hl hr).1) _ hpsShape
-  have hge : ∀ pr ∈ parentRows rows t, ver pr.out.vers (keyOf k0 rest) ≤ ver nr.inb.vers (keyOf k0 rest) := by
+  have hge : ∀ pr ∈ parentRows rows t, ver pr.out.vers (keyOf (esc k0) rest) ≤ ver nr.inb.vers (keyOf (esc k0) rest) := by
     intro pr hpr
     rw [hni]
     exact ver_upstream_ge _ _ (fun c hc => (hpsShape c hc).2.1) pr.out (List.mem_map.mpr ⟨pr, hpr, rfl⟩)
@@ -509,7 +509,7 @@ theorem good_step (k0 : String) (rest : List String) (hk : k0 ≠ "__task_execut
     · obtain ⟨p, _, hp⟩ := (mem_parentRows rows t pr).mp hpr
       exact (hna q').mpr (Or.inr ⟨pr, hpr, g.ancTrans p pr hp q hq rq hrq q' hq'⟩)
   have hDom : ∀ q ∈ nr.anc, ∀ rq, rows[q]? = some rq →
-      ver rq.out.vers (keyOf k0 rest) ≤ ver nr.inb.vers (keyOf k0 rest) := by
+      ver rq.out.vers (keyOf (esc k0) rest) ≤ ver nr.inb.vers (keyOf (esc k0) rest) := by
     intro q hq rq hrq
     rcases (hna q).mp hq with ⟨hqp, _⟩ | ⟨pr, hpr, hq⟩
     · exact hge rq ((mem_parentRows rows t rq).mpr ⟨q, hqp, hrq⟩)
@@ -521,7 +521,7 @@ theorem good_step (k0 : String) (rest : List String) (hk : k0 ≠ "__task_execut
   -- the witness property, preserved by the fold
   let W : Ctx → Prop := fun c => ShapeOK k0 rest c ∧ ∀ x, getPath c.data k0 rest = some x →
     ∃ q ∈ nr.anc, ∃ rq, rows[q]? = some rq ∧ getPath rq.task.pub k0 rest = some x ∧
-      ver rq.out.vers (keyOf k0 rest) = ver c.vers (keyOf k0 rest)
+      ver rq.out.vers (keyOf (esc k0) rest) = ver c.vers (keyOf (esc k0) rest)
   have hWempty : W ⟨[], []⟩ := by
     refine ⟨shapeOK_empty k0 rest, ?_⟩
     intro x hx; simp [getPath] at hx
@@ -549,7 +549,7 @@ theorem good_step (k0 : String) (rest : List String) (hk : k0 ≠ "__task_execut
         exact ⟨q, hq, rq, h1, hxe ▸ h2, by omega⟩
       | some x' =>
         simp only [hgl] at hx
-        by_cases hc : ver r.vers (keyOf k0 rest) > ver l.vers (keyOf k0 rest)
+        by_cases hc : ver r.vers (keyOf (esc k0) rest) > ver l.vers (keyOf (esc k0) rest)
         · simp only [hc, if_true] at hx
           have hxe : y = x := Option.some.inj hx
           obtain ⟨q, hq, rq, h1, h2, h3⟩ := wr y hgr
